@@ -4,11 +4,13 @@ from .. import common, gen, modelio, pipefam, pool, cli
 
 RULE = ("malformed stream: one defect inserted into an otherwise valid generated pair -- duplicate gene identifier (same / other "
         "chromosome, at first / last / random row positions), strand symbol outside + - . (at first / last / random rows), each required "
-        "column dropped in turn, chromosome sets differing with equal and unequal cardinality; every fifth variant with a defect of the gene annotation, and every missing-column variant (either file) a second time, in an output directory where the valid pair "
+        "column dropped in turn, chromosome sets differing with equal and unequal cardinality (also in an output directory used before for the valid pair under other file names with the same stem before the first dot); strand symbols include the tokens table readers take for missing (NA, empty, null, ...); every fifth variant with a defect of the gene annotation, and every missing-column variant (either file) a second time, in an output directory where the valid pair "
         "was processed before, with older modification times; gene files of 10400 rows (thorough: up to 70000) with the duplicate identifier on rows far apart or adjacent across a round row count; every variant through the real library "
         "stages (must raise, no <genome>_<chrom>.h5 left) and a sample through the CLI (exit status non-zero, no result file); "
         "non-trivial = defect not in the first row; distinct = canonical JSON of the variant")
-BAD_STRANDS = ["*", "x", "++", "0", "plus", "?", "+-", "-.", "+-.", "-+", ".+", "+ ", " -", "\uff0b", "\u2013", ".."]
+BAD_STRANDS = ["*", "x", "++", "0", "plus", "?", "+-", "-.", "+-.", "-+", ".+", "+ ", " -", "\uff0b", "\u2013", "..",
+               # tokens a table reader takes for "missing": a row with such a strand is still a row with a strand outside + - .
+               "NA", "", "N/A", "null", "NaN", "None", "<NA>", "n/a"]
 _bad_i = [0]
 G_REQUIRED = ["Gene_Name", "Chromosome", "Start", "Stop", "Strand", "Length"]
 T_REQUIRED = ["Chromosome", "Start", "Stop", "Order", "SuperFamily"]
@@ -118,6 +120,16 @@ def run(chk):
             cc["before"] = {"case": base_of, "genome": "G", "backdate_inputs": True, "same_names": True}
             if dropped:
                 extra.append(cc)
+    vs += extra
+    # chromosome sets that differ, in an output directory where the VALID pair was processed under OTHER file names (same stem before the
+    # first dot, e.g. two releases of one annotation): nothing of that earlier run may stand in for the files given now
+    extra = []
+    for c in vs:
+        if c["defect"].startswith("chromosome sets differ") and not c.get("before"):
+            cc = copy.deepcopy(c)
+            cc["before"] = {"case": {k: c["_base"][k] for k in ("genes", "tes", "windows")}, "genome": "G"}
+            cc["defect"] += " (directory used for the valid pair under other file names)"
+            extra.append(cc)
     vs += extra
     for c in vs:
         c.pop("_base", None)
